@@ -9,12 +9,14 @@ EXTENDS MuxMonitor, Json
 
 Trace == ndJsonDeserialize("trace.ndjson")
 
+CONSTANT Want      \* which clause families are evaluated (the others are not computed)
+
 VARIABLES l, cfg, mon
 
 tvars == <<l, cfg, mon>>
 
 NoCfg == [variant |-> "none"]
-AllTrue == [c01 |-> TRUE, c02 |-> TRUE, c03 |-> TRUE, c04 |-> TRUE, c05 |-> TRUE, c18 |-> TRUE]
+AllTrue == [c01 |-> TRUE, c02 |-> TRUE, c03 |-> TRUE, c04 |-> TRUE, c05 |-> TRUE, c18 |-> TRUE, c19 |-> TRUE, c16 |-> TRUE]
 
 TraceInit == l = 1 /\ cfg = NoCfg /\ mon = [f |-> AllTrue]
 
@@ -26,7 +28,7 @@ TraceReset ==
 
 TraceWrite ==
   /\ l <= Len(Trace) /\ Trace[l].ev = "write"
-  /\ mon' = MonStep(cfg, mon, Trace[l])
+  /\ mon' = MonStep(cfg, mon, Trace[l], Want)
   /\ cfg' = cfg
   /\ l' = l + 1
 
@@ -44,4 +46,6 @@ C03_Durations        == mon.f.c03
 C04_Evolution        == mon.f.c04
 C05_URIs             == mon.f.c05
 C18_Retention        == mon.f.c18
+C19_RegularParts     == mon.f.c19
+C16_Multivariant     == mon.f.c16
 =============================================================================
